@@ -791,16 +791,29 @@ fn run_background_tracking(w: &mut World, ops: &[(usize, Last)], durable: &mut V
 
 fn c04_unverified_put() {
     pin_hashes(2);
-    let mut w = World::new(100, 2);
+    // the store may be exactly at capacity, holding another (farther) key: an unvalidated arrival must not make room
+    // for itself before validation has accepted it
+    let full = choice(2) == 1;
+    let held = choice(2) == 1;
+    let cap = if full { 1 + usize::from(held) } else { 100 };
+    let mut w = World::new(cap, 2);
     settle_labelled(&mut w);
     // a small size limit so that the boundary is cheap to reach
     w.driver.node_store().config.max_value_bytes = 40;
     let k = key(0);
-    let held = choice(2) == 1;
     if held {
         let _ = w.driver.arm_put_local_record(chunk_record(&k, 0));
         settle_labelled(&mut w);
     }
+    if full {
+        env::set_task_label(&key_name(&key(1)));
+        let _ = w.driver.arm_put_local_record(chunk_record(&key(1), 0));
+        settle_labelled(&mut w);
+        cover("store_at_capacity");
+        check_bool("setup:store_is_full", w.driver.node_store().records.len() == cap);
+    }
+    let held_before = held_set(w.driver.node_store());
+    let other_before = w.driver.store().get(&key(1)).map(|c| c.into_owned().value);
     let shape = choice(5);
     // record kind of the two boundary-size shapes: paid kinds take another branch of put ("always processed")
     let tag: u8 = if shape == 1 || shape == 2 { [0u8, 1, 4, 5, 7][choice(5)] } else { 1 };
@@ -813,7 +826,7 @@ fn c04_unverified_put() {
     };
     let len = rec.value.len();
     let before = w.driver.store().get(&k).map(|c| c.into_owned().value);
-    note(format!("held={held} shape={shape} kind_tag={tag} len={len}"));
+    note(format!("full={full} held={held} shape={shape} kind_tag={tag} len={len}"));
     let r = w.driver.store().put(rec.clone());
     settle_labelled(&mut w);
     let mut forwarded = 0;
@@ -827,6 +840,10 @@ fn c04_unverified_put() {
     // whatever arrives from the network is never readable before validation accepted it
     check_bool("unverified:store_content_unchanged_by_network_put", after == before);
     check_bool("unverified:no_file_written", w.driver.store().contains(&k) == held);
+    // "rejected or not yet validated" means nothing changes: no held record is evicted to make room
+    check_bool("unverified:network_put_leaves_the_held_set_unchanged", held_set(w.driver.node_store()) == held_before);
+    check_bool("unverified:other_held_record_still_readable", w.driver.store().get(&key(1)).map(|c| c.into_owned().value) == other_before);
+    check_views_agree(w.driver.node_store(), "unverified");
     if len >= 40 {
         cover("oversized");
         check_bool("unverified:oversized_record_refused", r.is_err() && forwarded == 0);
